@@ -55,3 +55,44 @@ class StepCounter(object):
             pass
         self.active = False
         return False
+
+
+class ReachCounter(object):
+    """Counts entries of the repository's functions (capped per code object, then the event is disabled for it,
+    so the overhead is bounded).  Used by every worker: evidence reports which anchored functions were reached."""
+    TOOL = 4
+
+    def __init__(self, root, cap=500):
+        self.root = root
+        self.cap = cap
+        self.entered = {}
+
+    def __enter__(self):
+        mon = sys.monitoring
+        try:
+            mon.use_tool_id(self.TOOL, 'rv-reach')
+        except ValueError:
+            mon.free_tool_id(self.TOOL)
+            mon.use_tool_id(self.TOOL, 'rv-reach')
+
+        def on_start(code, offset):
+            if not code.co_filename.startswith(self.root):
+                return mon.DISABLE
+            q = code.co_filename[len(self.root):].lstrip('/').replace('FlowCal/', '').replace('.py', '') + ':' + code.co_qualname
+            n = self.entered.get(q, 0) + 1
+            self.entered[q] = n
+            if n >= self.cap:
+                return mon.DISABLE
+        mon.register_callback(self.TOOL, mon.events.PY_START, on_start)
+        mon.set_events(self.TOOL, mon.events.PY_START)
+        return self
+
+    def __exit__(self, *a):
+        mon = sys.monitoring
+        mon.set_events(self.TOOL, 0)
+        mon.register_callback(self.TOOL, mon.events.PY_START, None)
+        try:
+            mon.free_tool_id(self.TOOL)
+        except Exception:   # noqa
+            pass
+        return False
